@@ -37,6 +37,11 @@ check("C18", "exploration",
       "Trusts the own RFC 2397 decoder and RFC 3986 character classes; 'validly encoded' for the never-longer clause means base64 or every character escaped that RFC 3986 forbids plus '&'.",
       "bounded exhaustive input enumeration vs independent decoder", "DESIGN.md#c18")
 
+check("C12", "model_checking",
+      "The real wrapper code of minify.go (Writer, Reader, ResponseWriter, Middleware, MiddlewareWithError) is rebuilt from the current tree with sync.RWMutex/WaitGroup/io.Pipe/go routed through a cooperative scheduler (go build -overlay; /repo untouched). For every partition of short inputs of each media type into chunks, every interleaving of producer, minifier goroutine and consumer at every synchronisation operation is explored (preemption bound 3 in quick, unbounded in thorough, cut at visited global states) and compared with the plain sequential call: bytes, error, 'everything delivered at the instant Close returns', Content-Length removal and minifier selection. The io.Pipe model is validated against the real io.Pipe by exhaustive model exploration vs free runs.",
+      "Preemption happens only at hooked operations (before and after each); the pipe is a model kept bound to io.Pipe by the conformance run; inputs longer than the bound are cut into <=3 pieces only.",
+      "stateless schedule exploration (controlled scheduler, DFS with prefix replay, state-key pruning) of the implementation + model/implementation conformance for io.Pipe", "DESIGN.md#c12", engine="vsched")
+
 ALL = ["C%02d" % i for i in range(1, 21)]
 NOT_YET = {p: "check not built yet in this revision (planned, see DESIGN.md section 4); not claimed until its command exists" for p in ALL if p not in CHECKS}
 
@@ -52,6 +57,7 @@ manifest = {
     },
     "engines": [
         {"name": "enum", "path": "/verif/internal/core", "serves_properties": sorted(k for k in CHECKS if CHECKS[k]["engine"] == "enum"), "kind_free_text": "bounded exhaustive case enumerator (mixed radix / grammar families, sharded over all cores) with independent oracles"},
+        {"name": "vsched", "path": "/verif/internal/vsync", "serves_properties": ["C12", "C13", "C14"], "kind_free_text": "cooperative deterministic scheduler with shims for sync.RWMutex/Mutex/WaitGroup/Once, io.Pipe and go; stateless DFS over schedules with prefix replay, iterative preemption bounding and state-key pruning; applied to the real minify.go through a generated go build -overlay"},
         {"name": "bfs", "path": "/verif/internal/props/c15", "serves_properties": ["C15"], "kind_free_text": "explicit-state breadth-first search over operation histories; successor = replay on a fresh real object + one operation; reference-model canonical state for deduplication"},
     ],
     "checks": [CHECKS[k] for k in sorted(CHECKS)],
